@@ -26,7 +26,122 @@ pub fn plan() -> Plan {
         soft_s: (25, 420),
         exhaustive: None,
         min_evaluations: 200,
+        extra: Some(strace_extra),
     }
+}
+
+/// monitor 5: the same kind of workload without any hook, under strace; tools/strace_c07.py checks the rules on syscalls
+fn strace_extra(tier: &str, seed: u64, sh: &mut Shard) {
+    let n = if tier == "thorough" { 400 } else { 40 };
+    let dir = new_dir("c07st-");
+    let out = dir.join("strace.out");
+    let work = dir.join("w");
+    let _ = std::fs::create_dir_all(&work);
+    let exe = std::env::current_exe().unwrap();
+    let st = std::process::Command::new("strace")
+        .args(["-f", "-y", "-s", "0", "-e", "trace=openat,pwrite64,write,ftruncate,truncate,unlink,unlinkat,rename,renameat,renameat2", "-o"])
+        .arg(&out)
+        .arg(&exe)
+        .arg("c07strace")
+        .arg(&work)
+        .arg(seed.to_string())
+        .arg(n.to_string())
+        .stdout(std::process::Stdio::null())
+        .stderr(std::process::Stdio::null())
+        .status();
+    match st {
+        Ok(s) if s.success() => {
+            let script = crate::evidence::verif_root().join("tools").join("strace_c07.py");
+            let o = std::process::Command::new("python3").arg(&script).arg(&out).arg(&work).output();
+            match o.ok().and_then(|o| serde_json::from_slice::<serde_json::Value>(&o.stdout).ok()) {
+                Some(v) => {
+                    sh.add("strace_syscalls_seen", v["syscalls"].as_u64().unwrap_or(0));
+                    sh.add("strace_blob_writes_checked", v["blob_writes"].as_u64().unwrap_or(0));
+                    sh.add("strace_blob_renames_checked", v["renames"].as_u64().unwrap_or(0));
+                    sh.add("strace_histories", n);
+                    if let Some(a) = v["violations"].as_array() {
+                        for x in a.iter().take(3) {
+                            let rule = x["rule"].as_str().unwrap_or("?");
+                            let keep = crate::evidence::verif_root().join("replays").join(format!("C07-strace-{}.out", seed));
+                            let _ = std::fs::create_dir_all(keep.parent().unwrap());
+                            let _ = std::fs::copy(&out, &keep);
+                            sh.violations.push(crate::evidence::Violation { sig: format!("C07/strace/{}", rule), detail: format!("{}: {}", rule, x["line"].as_str().unwrap_or("")), replay: keep.to_string_lossy().to_string() });
+                        }
+                    }
+                }
+                None => sh.notes.push("strace checker produced no result".into()),
+            }
+        }
+        Ok(s) => sh.notes.push(format!("strace workload exited with {:?} (monitor 5 skipped)", s.code())),
+        Err(e) => sh.notes.push(format!("strace not available: {} (monitor 5 skipped)", e)),
+    }
+    rm_dir(&dir);
+}
+
+/// `pv c07strace <dir> <seed> <n>`: hook-free workload for the strace view; the harness' own file
+/// manipulations are bracketed by marker writes to /dev/null (7 bytes = begin, 9 bytes = end)
+pub fn strace_main(args: &[String]) -> i32 {
+    use std::io::Write;
+    let root = PathBuf::from(&args[0]);
+    let seed: u64 = args[1].parse().unwrap_or(1);
+    let n: u64 = args[2].parse().unwrap_or(10);
+    let mut null = std::fs::OpenOptions::new().write(true).open("/dev/null").expect("/dev/null");
+    let mut rng = Rng::new(seed ^ 0x57ACE);
+    let p = profile();
+    for i in 0..n {
+        let dir = root.join(format!("h{}", i));
+        let _ = std::fs::create_dir_all(&dir);
+        let mut cfg = random_cfg(&mut rng, p.n_keys, p.n_meta, Some(true));
+        cfg.keylen = 8;
+        cfg.mt = true;
+        let ops = gen_history(&mut rng, &p);
+        let mut l: Loose<8> = Loose::new(dir.clone(), cfg.clone());
+        let rt = crate::runner::runtime(true);
+        let mut garbage = 0u64;
+        rt.block_on(async {
+            if l.open(false).await.is_err() {
+                return;
+            }
+            for op in ops.iter() {
+                if let Op::Restart { lazy, .. } = op {
+                    let _ = l.close().await;
+                    // harness damage, bracketed
+                    let _ = null.write(b"PVH+beg");
+                    let blobs: Vec<PathBuf> = crate::drive::dir_ids(&dir).into_iter().map(|id| dir.join(format!("t.{}.blob", id))).collect();
+                    if !blobs.is_empty() {
+                        let victim = rng.pick(&blobs).clone();
+                        match rng.below(6) {
+                            0 | 1 => {
+                                if let Ok(b) = std::fs::read(&victim) {
+                                    if b.len() > 40 {
+                                        let cut = b.len() - 1 - rng.below(15) as usize;
+                                        let _ = std::fs::write(&victim, &b[..cut]);
+                                        let _ = std::fs::remove_file(victim.with_extension("index"));
+                                    }
+                                }
+                            }
+                            2 => {
+                                garbage += 1;
+                                let _ = std::fs::write(dir.join(format!("t.{}.blob", 60 + garbage)), rng.bytes_range(1, 100));
+                            }
+                            _ => {}
+                        }
+                    }
+                    let _ = null.write(b"PVH-end!!");
+                    if l.open(*lazy).await.is_err() {
+                        return;
+                    }
+                } else {
+                    let _ = l.exec(op).await;
+                }
+            }
+            l.barrier().await;
+            l.query_all(5).await;
+            let _ = l.close().await;
+        });
+        drop(rt);
+    }
+    0
 }
 
 fn profile() -> Profile {
